@@ -953,9 +953,52 @@ val flushed : state -> devent
 
 val clear_io : state -> state
 
+val dtrans :
+  bool -> bool -> xcode list -> n list list -> dstate -> devent list * (dend,
+  n list list * dstate) sum
+
 val dloop :
   bool -> bool -> nat -> xcode list -> n list list -> dstate -> devent
   list * dend
 
 val debug_run :
   bool -> bool -> nat -> xcode list -> n list list -> devent list * dend
+
+val is_scalar_value : n -> bool
+
+val encode1 : n -> n list
+
+val encode : n list -> n list
+
+val is_cont : n -> bool
+
+val decode1 : n list -> (n * n list) option
+
+val decode_fuel : nat -> n list -> n list option
+
+val decode : n list -> n list option
+
+val split_nl : n list -> n list -> n list list
+
+val stdin_lines : n list -> n list option list
+
+type file_in =
+| FUnreadable
+| FBytes of bool * n list
+
+type diag =
+| DgFile
+| DgExt
+| DgUtf8File
+| DgUtf8Stdin
+| DgEnc of n
+
+type cli_out =
+| CExit of n * n list * n list
+| CDiag of diag * n list * n list
+| CPanic
+| CRunning
+
+val run_cli : n -> file_in -> n list -> nat -> cli_out
+
+val check_cli : file_in -> cli_out
